@@ -24,6 +24,14 @@ def cli_pass(behs_jobs, out, limit):
         r = runner.run_cli(["--emit-qasm", "main.bloch"], {"main.bloch": job["src"], "draws.txt": draws},
                            env={"BLOCH_VERIF_DRAWS": "draws.txt", "BLOCH_VERIF_GC": "none"})
         n += 1
+        stale = None
+        if n % 2 == 0 and r["rc"] == 0 and r["files"].get("main.qasm"):
+            # run again at the same path over the file an earlier run left behind: a longer listing that starts with the new one,
+            # a shorter one that the new one starts with, or unrelated text. The file must be this run's listing afterwards.
+            t = r["files"]["main.qasm"]
+            stale = [t + "x q[0];\nmeasure q[0] -> c[0];\n", t[:len(t) // 2], "OPENQASM 2.0;\nstale\n", t + "\n"][(n // 2) % 4]
+            r = runner.run_cli(["--emit-qasm", "main.bloch"], {"main.bloch": job["src"], "draws.txt": draws, "main.qasm": stale},
+                               env={"BLOCH_VERIF_DRAWS": "draws.txt", "BLOCH_VERIF_GC": "none"})
         filetext = r["files"].get("main.qasm")
         # stdout = echo lines followed by the listing
         idx = r["stdout"].find("OPENQASM 2.0;")
@@ -44,7 +52,9 @@ def cli_pass(behs_jobs, out, limit):
                 why = "CLI listing differs from the operations of the run"
         if why:
             bad += 1
-            out.violation(why, {"program": job["src"], "draws": job["draws"], "what": why,
+            if stale is not None:
+                why += " (second run at a path where an earlier run had left a .qasm file)"
+            out.violation(why, {"program": job["src"], "draws": job["draws"], "what": why, "file_before_the_run": stale,
                                 "stdout": r["stdout"][-1500:], "file": filetext, "expected": exp}, "cli%d" % n)
     return n, bad
 
